@@ -259,7 +259,9 @@ class Translator:
         if n == 'internal::failure': return ('fail',)
         if n == 'internal::eof': return ('eof',)
         if n == 'internal::eol':
-            if self.eol == 'lf_crlf': return ('sor', [cls(10), ('seq', [cls(13), cls(10)])])
+            crlf = ('seq', [cls(13), cls(10)])
+            pol = {'lf_crlf': ('sor', [cls(10), crlf]), 'lf': cls(10), 'cr': cls(13), 'crlf': crlf, 'cr_crlf': ('sor', [crlf, cls(13)])}
+            if self.eol in pol: return pol[self.eol]
             raise Unsupported('eol policy ' + self.eol)
         if n == 'internal::eolf': return ('sor', [self.builtin(T + 'internal::eol', [], stack, tstr), ('eof',)])
         if n == 'internal::any':
